@@ -3,6 +3,7 @@ CONSTANTS
   NMsgs = 4
   MaxOps = 2
   Buffers = {TRUE, FALSE}
+  Kinds = {"unbounded"}
   MaxLog = 7
 CONSTRAINT Bound
 VIEW View
